@@ -8,5 +8,5 @@ CONSTANTS
   Sizes = {0, 1, 2, 7, 10, 33, 50, 99, 640}
   PricesSet = {1, 3, 11}
   Adj = 10
-INVARIANTS InvBackedOnce InvBackedEach InvBracket
+INVARIANTS InvBackedOnce InvBackedEach InvBracket InvEmit
 CHECK_DEADLOCK FALSE
